@@ -49,3 +49,21 @@ def p8_no_shortcircuit(k):
 
 
 ob("SELFTEST", "patch8.no_shortcircuit", {"k": R(0, 100)}, T=30, bound="repr/format of concrete strings in 100 runs")(p8_no_shortcircuit)
+
+
+import functools  # noqa: E402
+
+
+@functools.lru_cache(maxsize=8)
+def _cached_list(s):
+    return [s]
+
+
+def p9_cache_modelled(a):
+    first = _cached_list(chr(a))
+    first.append("mutated")
+    second = _cached_list(chr(a))
+    return "" if second is first and len(second) == 2 else "lru_cache is skipped: the second call did not return the cached (mutated) object"
+
+
+ob("SELFTEST", "patch9.lru_cache_modelled", {"a": CP}, T=30, bound="a cached function returning a mutable list, symbolic argument")(p9_cache_modelled)
